@@ -328,6 +328,78 @@ pub fn replay(v: &Value) -> Result<(), String> {
     case(v["kind"].as_u64().unwrap_or(0) as usize % KINDS.len(), v["n"].as_u64().unwrap_or(2300) as usize, v["seed"].as_u64().unwrap_or(0))
 }
 
+// ---- two inputs, many threads -----------------------------------------------------------------------------
+//
+// 16 barrier-released threads evaluate the operation on TWO alternating arguments in a tight loop (each thread
+// starts with the other phase); every result is compared with the single-threaded reference. A process-wide
+// memo whose key and value are published separately, or a shared scratch buffer, shows up here: the keys
+// match across threads because all threads use the same two arguments.
+
+pub fn burst_case(kind: usize, reps: usize, threads: usize, seed: u64) -> Result<(), String> {
+    let st = State {
+        p1: walk1(&G1m::pool().sub[seed as usize % POOL_SUB].1, 4),
+        p2: walk2(&G2m::pool().sub[(seed / 7) as usize % POOL_SUB].1, 4),
+        f1: walk1(&G1m::pool().full[seed as usize % POOL_FULL], 4),
+        f2: walk2(&G2m::pool().full[(seed / 3) as usize % POOL_FULL], 4),
+        seed,
+    };
+    let refs = [eval(kind, 0, &st)?, eval(kind, 1, &st)?];
+    let barrier = std::sync::Barrier::new(threads);
+    let (st, refs, barrier) = (&st, &refs, &barrier);
+    let results: Vec<Result<(), String>> = std::thread::scope(|sc| {
+        let hs: Vec<_> = (0..threads)
+            .map(|t| {
+                sc.spawn(move || {
+                    barrier.wait();
+                    for j in 0..reps {
+                        let which = (j + t) % 2;
+                        let r = eval(kind, which, st)?;
+                        if r != refs[which] {
+                            return Err(format!("{}: thread {} of {}, iteration {}: the result for argument #{} differs from the single-threaded reference while other threads evaluate the same two arguments", KINDS[kind].name, t, threads, j, which));
+                        }
+                    }
+                    Ok(())
+                })
+            })
+            .collect();
+        hs.into_iter().map(|h| h.join().unwrap_or_else(|_| Err("harness: worker thread panicked".to_string()))).collect()
+    });
+    for r in results {
+        r?;
+    }
+    Ok(())
+}
+
+pub fn burst_reps(tier: Tier, kind: usize) -> usize {
+    match (tier, KINDS[kind].expensive) {
+        (Tier::Quick, true) => 150,
+        (Tier::Quick, false) => 8_000,
+        (_, true) => 1_500,
+        (_, false) => 60_000,
+    }
+}
+
+pub fn run_bursts(ctx: &Ctx, rec: &mut dyn FnMut(Value, Info), kinds: &[usize]) -> Result<(), (String, Value)> {
+    let _ = (G1m::pool(), G2m::pool());
+    // one kind at a time: each burst owns all cores
+    for k in kinds {
+        let reps = burst_reps(ctx.tier, *k);
+        let c = json!({"burst_kind": k, "reps": reps, "threads": 16, "seed": ctx.seed});
+        burst_case(*k, reps, 16, ctx.seed).map_err(|m| (m, c.clone()))?;
+        let mut info = Info::default();
+        info.nt();
+        info.class(format!("{}:16-threads-x-{}", KINDS[*k].name, reps));
+        rec(c, info);
+    }
+    Ok(())
+}
+
+pub fn replay_burst(v: &Value) -> Result<(), String> {
+    burst_case(v["burst_kind"].as_u64().unwrap_or(0) as usize % KINDS.len(), v["reps"].as_u64().unwrap_or(2000) as usize, v["threads"].as_u64().unwrap_or(16) as usize, v["seed"].as_u64().unwrap_or(0))
+}
+
+pub const BURST_RULE: &str = "16 barrier-released threads evaluate the operation on TWO alternating arguments in a tight loop (8000 / 150 iterations per thread quick, 60000 / 1500 thorough); every result must equal the single-threaded reference (a process-wide memo whose key and value are published separately, a shared scratch buffer)";
+
 pub const RULE: &str = "one worker thread sends N distinct arguments through the operation (N = 2300 / 4400 quick, 9000 / 70000 thorough), then evaluates the first 24, the last 24 and every (N/40)-th argument again, forwards and backwards: same bits as the first time (a bounded memo, ring or pool that misbehaves once full, flushed or wrapped)";
 
 /// `long_sub!(run_fn_name, [kinds...])` defines the run function of a property's long-history sub-check
@@ -336,6 +408,9 @@ macro_rules! long_sub {
     ($name:ident, $kinds:expr) => {
         fn $name(ctx: &$crate::engine::Ctx, rec: &mut dyn FnMut(serde_json::Value, $crate::engine::Info)) -> Result<(), (String, serde_json::Value)> {
             $crate::props::longhist::run_kinds(ctx, rec, &$kinds)
+        }
+        fn run_two_input_bursts(ctx: &$crate::engine::Ctx, rec: &mut dyn FnMut(serde_json::Value, $crate::engine::Info)) -> Result<(), (String, serde_json::Value)> {
+            $crate::props::longhist::run_bursts(ctx, rec, &$kinds)
         }
     };
 }
